@@ -55,8 +55,15 @@ def run(tier):
     failed = ck.proofs()
     n = 2000 if tier == "quick" else 200000
     seqs = list(CORPUS) + [gen_seq(ck.rng) for _ in range(n)]
-    lines = ["addrange " + " ".join("%d %d" % r for r in s) for s in seqs]
-    impl, model = C.run_pair(lines)
+    # every second sequence goes through AddLexTNode (literals as literal nodes), the path getSymbolClasses takes
+    def op(k, s):
+        if k % 2 == 0 or any(a > b2 for a, b2 in s):
+            return "addrange " + " ".join("%d %d" % r for r in s)
+        return "addnodes " + " ".join(("l %d" % a) if a == b2 else ("r %d %d" % (a, b2)) for a, b2 in s)
+    lines = [op(k, s) for k, s in enumerate(seqs)]
+    mlines = ["addrange " + " ".join("%d %d" % r for r in s) for s in seqs]
+    impl = C.run_lines(C.build_drv(), lines)[1]
+    model = C.run_model(mlines)
     # oracle (executable spec) on the implementation's own output
     olines = []
     for s, o in zip(seqs, impl):
